@@ -8,6 +8,8 @@ def run_check(tier, seed, replay=None):
     if replay:
         return replay_hex(c, "C05", replay)
     wd = workdir("c05")
+    mc_deflate(c, wd)
+    replay_catalogue(c, wd, "C05")
     gen = gen_streams(wd, tier, seed + 2)
     res = replay_generated(c, wd, gen)
     account(c, res, "C05", "generated")
